@@ -94,6 +94,34 @@ def foreign_files():
     return out
 
 
+def long_header_files():
+    """pq.py files whose page headers are longer than the reader's 256-byte window (statistics with 160-byte BYTE_ARRAY
+    values): in fread mode the reader has to read the header a second time -> {codec id: path}; 4 REQUIRED BYTE_ARRAY
+    columns x 12 pages x 6 rows"""
+    import pq
+    out = {}
+    for cid, codec in ((0, "UNCOMPRESSED"), (1, "SNAPPY")):
+        path = tmpdir() / f"longhdr_{codec.lower()}.parquet"
+        out[cid] = path
+        if path.exists() and path.stat().st_size > 12:
+            continue
+        n = 72
+        nodes, cols = [], []
+        for c in range(4):
+            nodes.append(pq.SchemaNode(f"c{c}", "REQUIRED", "BYTE_ARRAY", 0))
+            vals = [(("col%d-row%04d-" % (c, i)) * 12)[:160].encode() for i in range(n)]
+            pages = [pq.PageSpec(6, "PLAIN") for _ in range(12)]
+            for p_ in pages:
+                p_.stats = True
+                p_.crc = True
+            cols.append(pq.ColumnSpec([0] * n, [0] * n, vals, pages, codec))
+        spec = pq.FileSpec(pq.SchemaNode("schema", "REQUIRED", children=nodes), [pq.RowGroupSpec(n, cols)])
+        tmp = path.with_suffix(".tmp%d" % os.getpid())
+        tmp.write_bytes(pq.write_file(spec, random.Random(7)))
+        os.replace(tmp, path)
+    return out
+
+
 def fspec_at(path, codec, types, npages=3, rpp=40):
     return f"@{path} {codec} {types} 1 {npages} {rpp} 0"
 
@@ -512,6 +540,35 @@ def check_sweep(rep, tier, rng, drv):
                     lines.append(f"batch {fspec_at(p4, cid, 'IbBd')} {mode} {batch} {nt} -")
                 if mode == "fread":
                     lines.append(f"batch {fspec_at(p4, cid, 'IbBd')} {mode} 120 {nt} jit:{rng.randrange(1 << 30)}")
+    # page headers longer than the 256-byte header window (second read of the header in fread mode), many small pages
+    for cid, path in long_header_files().items():
+        for mode in ("fread", "mmap"):
+            for nt in ((2, 4, 16) if tier == "quick" else (2, 3, 4, 8, 12, 16)):
+                for rep_ in range(3 if mode == "fread" else 1):
+                    lines.append(f"batch {fspec_at(path, cid, 'bbbb', 12, 6)} {mode} {(6, 18, 72)[rep_]} {nt} -")
+                if mode == "fread":
+                    lines.append(f"batch {fspec_at(path, cid, 'bbbb', 12, 6)} {mode} 6 {nt} jit:{rng.randrange(1 << 30)}")
+    # one page of more than 2^20 values per column (kernels that split very large inputs), batch not a multiple of anything
+    big = fspec(0, "IL", 1, 1, 1600000, seedbase + 6)
+    for nt in ((1, 2, 16) if tier == "quick" else (1, 2, 3, 5, 16)):
+        lines.append(f"batch {big} mmap 1299709 {nt} -")
+    if tier == "thorough":
+        # the same for the dictionary gather kernels: one dictionary-encoded page of 1.1 M values per column (pq.py, ~25 s once)
+        import struct
+        import pq
+        path = tmpdir() / "bigdict.parquet"
+        if not (path.exists() and path.stat().st_size > 12):
+            n = 1100000
+            cols = [pq.ColumnSpec([0] * n, [0] * n, [struct.pack("<i", (i * 7) % 13) for i in range(n)], [pq.PageSpec(n, "RLE_DICTIONARY")], "UNCOMPRESSED", dictionary="auto"),
+                    pq.ColumnSpec([0] * n, [0] * n, [struct.pack("<d", (i % 11) * 0.25) for i in range(n)], [pq.PageSpec(n, "RLE_DICTIONARY")], "UNCOMPRESSED", dictionary="auto")]
+            spec = pq.FileSpec(pq.SchemaNode("schema", "REQUIRED", children=[pq.SchemaNode("c0", "REQUIRED", "INT32", 0), pq.SchemaNode("c1", "REQUIRED", "DOUBLE", 0)]),
+                               [pq.RowGroupSpec(n, cols)])
+            tmp = path.with_suffix(".tmp%d" % os.getpid())
+            tmp.write_bytes(pq.write_file(spec, random.Random(3)))
+            os.replace(tmp, path)
+        for nt in (1, 2, 16):
+            lines.append(f"batch {fspec_at(path, 0, 'id', 1, 1100000)} mmap 1048583 {nt} -")
+            lines.append(f"batch {fspec_at(path, 0, 'id', 1, 1100000)} fread 1048583 {nt} -")
     for codec in (0, 6):
         spec = fspec(codec, "ildfIL", 1, 4, 60, seedbase + 1)
         for mode in ("fread", "mmap"):
@@ -581,6 +638,9 @@ def check_indep(rep, tier, rng, drv):
                     warm.append(f"indep {spec} {mode} 250 {N} {inner}")
             for N in ([4, 8] if tier == "quick" else [2, 4, 8, 16]):
                 fresh.append(f"indep {spec} {mode} 250 {N} 1 premade")
+            # the handles driven from the CALLER's OpenMP threads: the batch reader's regions are nested (team of one)
+            for N, inner in (((3, 2), (4, 5)) if tier == "quick" else ((2, 2), (3, 2), (4, 5), (8, 3), (16, 16))):
+                warm.append(f"indep {spec} {mode} 250 {N} {inner} omp")
     specs = sorted({" ".join(l.split()[1:8]) for l in warm + fresh})
     mk, rc, err = vlib.run_lines(drv, ["mk " + s for s in specs], env=san_env())
     if rc != 0 or any(not m.startswith("OK") for m in mk):
@@ -620,6 +680,46 @@ def check_indep(rep, tier, rng, drv):
     rep.cov.setdefault("input_distribution", {})["independent_readers_warm"] = len(warm)
     rep.cov["input_distribution"]["independent_readers_first_use_processes"] = len(fresh)
     rep.sample({"op": "indep", "case": fresh[0], "result": fres[0][0][:100]})
+
+
+# --------------------------------------------------------------------------- OpenMP runtime settings
+
+def check_omp_env(rep, tier, rng, drv):
+    """the team the runtime really grants can be smaller than num_threads (OMP_THREAD_LIMIT, OMP_DYNAMIC, nested regions):
+    the same batches must come back"""
+    seedbase = vlib.SEED * 100
+    envs = [{"OMP_THREAD_LIMIT": "1"}, {"OMP_THREAD_LIMIT": "2"}, {"OMP_THREAD_LIMIT": "3"},
+            {"OMP_DYNAMIC": "true", "OMP_NUM_THREADS": "3"}, {"OMP_NUM_THREADS": "1"}, {"OMP_MAX_ACTIVE_LEVELS": "2", "OMP_NUM_THREADS": "2"}]
+    lines = []
+    for codec in (0, 6):
+        spec = fspec(codec, "ildfIL", 1, 4, 60, seedbase + 1)
+        for mode in ("fread", "mmap"):
+            for nt in ((0, 2, 5, 16) if tier == "quick" else (0, 2, 3, 4, 5, 7, 8, 16)):
+                lines.append(f"batch {spec} {mode} 150 {nt} -")
+        lines.append(f"indep {spec} mmap 250 3 4 omp")
+
+    def one(env):
+        e = san_env()
+        e.update(env)
+        try:
+            o, rc, err = vlib.run_lines(drv, lines, timeout=600, env=e)
+        except subprocess.TimeoutExpired:
+            return [], -9, "timeout"
+        return o, rc, err
+    with ThreadPoolExecutor(len(envs)) as ex:
+        res = list(ex.map(one, envs))
+    for env, (o, rc, err) in zip(envs, res):
+        tag = ",".join(f"{k}={v}" for k, v in env.items())
+        if rc != 0 or len(o) != len(lines):
+            rep.violation(f"batch reads under {tag}: driver failed (rc={rc}): {san_summary(err)}", {"case": lines[min(len(o), len(lines) - 1)], "env": env})
+            continue
+        for li, out in zip(lines, o):
+            rep.count(li + " " + tag)
+            kv = parse_kv(out)
+            if kv["_status"] != "OK" or kv.get("eq") != "1":
+                t = li.split()
+                rep.violation(f"{t[0]} under {tag} ({t[8]} mode, num_threads={t[10]}): statuses {kv.get('st')} / content differ from the "
+                              f"single-threaded run {kv.get('base', '')}", {"case": li, "env": env, "impl": out[:1200]})
 
 
 # ------------------------------------------------------------------------ concurrent first use, fresh forks
@@ -799,6 +899,7 @@ def run(tier):
     check_forced(rep, tier, rng, drv, runner)
     check_sweep(rep, tier, rng, drv)
     check_indep(rep, tier, rng, drv)
+    check_omp_env(rep, tier, rng, drv)
     check_firstuse(rep, tier, rng, drv)
     if tier == "thorough":
         check_tsan(rep, rng)
@@ -813,7 +914,15 @@ def replay(path):
         print(json.dumps(j, indent=1))
         return 1
     drv = build_driver("h_conc", libs=["-lpthread"])
-    print("case:", case)
+    print("case:", case, "env:", r.get("env"))
+    if r.get("env"):
+        _base = san_env
+
+        def _env_with():
+            e = _base()
+            e.update(r["env"])
+            return e
+        globals()["san_env"] = _env_with
     bad = 0
     if case.startswith("firstuse"):
         t = case.split()
